@@ -257,17 +257,27 @@ def _analyze_node(node, config: Config, cwd: Path, *, remote: bool = False) -> D
         # Check case word for cmdsubs
         if hasattr(node, "word") and node.word:
             decisions.extend(_analyze_word_parts(node.word, config, cwd, remote=remote))
+        item_cwd = cwd
         for pattern in node.patterns:
             # Patterns are expanded by bash: a|$(cmd)) runs cmd
             pattern_text = getattr(pattern, "pattern", None)
             if isinstance(pattern_text, str):
                 decisions.extend(
-                    _analyze_string_cmdsubs(pattern_text, config, cwd, remote=remote)
+                    _analyze_string_cmdsubs(
+                        pattern_text, config, item_cwd, remote=remote
+                    )
                 )
             if hasattr(pattern, "body") and pattern.body:
                 decisions.append(
-                    _analyze_node(pattern.body, config, cwd, remote=remote)
+                    _analyze_node(pattern.body, config, item_cwd, remote=remote)
                 )
+                # after ";&" and ";;&" bash goes on into later items
+                if (
+                    not remote
+                    and getattr(pattern, "terminator", ";;") != ";;"
+                    and _changes_directory(pattern.body)
+                ):
+                    item_cwd = _UNKNOWN_CWD
         decisions.extend(_analyze_redirects(node, config, cwd, remote=remote))
         return _combine(decisions) if decisions else Decision("allow", "empty case")
 
